@@ -555,7 +555,11 @@ class SymbolKindFinder:
                         except UnableToInferKind:
                             pass
                         else:
-                            if isinstance(kind, (Scalar, Integer)):
+                            # (Array: not meaningful as an element, but
+                            # taking its real/complex-ness keeps the result
+                            # independent of the order in which kinds become
+                            # known.)
+                            if isinstance(kind, (Scalar, Integer, Array)):
                                 result.set(phase_name, stmt.assignee,
                                         kind=Array(is_real_valued=getattr(
                                             kind, "is_real_valued", True)))
